@@ -3,6 +3,8 @@ import TTModel.Scalar
 import TTModel.C15_Expr
 import TTModel.C15_MCMC
 import TTModel.C16_Leapfrog
+import TTModel.C15_Block
+import TTModel.C20_GMRF
 import TTGen.C15_Tuning
 /-!
 C15 driver (Float; floats as 16-hex-digit bit patterns).
@@ -24,8 +26,10 @@ C15 driver (Float; floats as 16-hex-digit bit patterns).
                         nad, then per adaptor:  adaptive target start stop(-1 = inf) useRate calls accepted
                                               | dual mu gamma kappa t0 delta start stop calls counter x xbar sbar
                                               | mass
+     and for kind block: d suff(d).. counts(d).. mode_forward(d).. mode_backward(d)..
+                        (own parameters = [field (d), precision (1)]; the modes are the mode finder's outputs)
   nr rands..  ni ints..  nd (len v..)*nd  nn (len v..)*nn
-  K, then K entries: values(flattened state) fin|bad value     (target: nearest recorded state)
+  tol K, then K entries: values(flattened state) fin|bad value  (target: nearest recorded state within tol)
 reply:
   ok opIdx | proposed(flat) | hr (fin x | inf) | lp (none | bad | fin x) | accProb accepted u(none|x)
      | stateAfter(flat) | logJointAfter | logged (bad | fin x) | scaleAfter adaptCount accept reject wlen w..
@@ -82,6 +86,28 @@ structure HmcCfg where
   lo : Float
   hi : Float
 
+structure BlockCfg where
+  d : Nat
+  w : Array Float
+  c : Array Float
+  mf : Array Float
+  mb : Array Float
+
+/-- `gmrf.precision_matrix()` of the plain GMRF (C20's published matrix) as an array matrix -/
+def gmrfQ (tau : Float) (d : Nat) : Mat Float :=
+  ((TT.C20.precisionMatrix (TT.C20.offDiag tau none d)).map List.toArray).toArray
+
+/-- the block proposal on own = [field, [precision]] -/
+def blockRun (c : BlockCfg) (op : Op Float) (own : List (List Float)) (tape : Tape Float) :
+    List (List Float) × HR Float × Tape Float :=
+  match own, tape.normals with
+  | [gamma, [tau]], z :: ns =>
+    let pm := precisionMultiplier op.scale tape.rands
+    let tau' := pm.1 * tau
+    let r := blockStep 0.5 1e-7 (gmrfQ tau c.d) (gmrfQ tau' c.d) c.w c.c gamma.toArray c.mf c.mb z.toArray
+    ([r.1.toList, [tau']], r.2, { tape with rands := tape.rands.drop pm.2, normals := ns })
+  | _, _ => (own, .inf, tape)
+
 def vecOf (a : Array Float) (n : Nat) : TT.C16.Vec Float n := fun i => a.getD i.val 0.0
 
 def hmcRun (c : HmcCfg) (eps : Float) (q : List Float) (normals : List (List Float)) :
@@ -131,7 +157,7 @@ def showAdaptor : Adaptor Float → String
   | .dual _ _ _ _ _ _ _ c cn x xb sb => s!"dual {c} {cn} {floatBits x} {floatBits xb} {floatBits sb}"
   | .massMatrix => "mass"
 
-def parseOp (i : Nat) : P (Op Float × Option HmcCfg) := do
+def parseOp (i : Nat) : P (Op Float × Option HmcCfg × Option BlockCfg) := do
   let k ← kind
   let np ← nat
   let pidx ← many np nat
@@ -159,8 +185,15 @@ def parseOp (i : Nat) : P (Op Float × Option HmcCfg) := do
     let hi ← flt
     let nad ← nat
     let ads ← many nad parseAdaptor
-    pure ({ op with adaptors := ads }, some ⟨steps, dense, n, im.toArray, G.toArray, b.toArray, lo, hi⟩)
-  else pure (op, none)
+    pure ({ op with adaptors := ads }, some ⟨steps, dense, n, im.toArray, G.toArray, b.toArray, lo, hi⟩, none)
+  else if k == .block then
+    let d ← nat
+    let w ← many d flt
+    let c ← many d flt
+    let mf ← many d flt
+    let mb ← many d flt
+    pure (op, none, some ⟨d, w.toArray, c.toArray, mf.toArray, mb.toArray⟩)
+  else pure (op, none, none)
 
 def unflat (sizes : List Nat) (v : List Float) : Params Float := splitBy sizes v
 
@@ -189,10 +222,12 @@ def runStep : P String := do
   let nops ← nat
   let mut ops : Array (Op Float) := #[]
   let mut cfgs : Array (Option HmcCfg) := #[]
+  let mut bcfgs : Array (Option BlockCfg) := #[]
   for i in [0:nops] do
-    let (o, c) ← parseOp i
+    let (o, c, bc) ← parseOp i
     ops := ops.push o
     cfgs := cfgs.push c
+    bcfgs := bcfgs.push bc
   let nr ← nat
   let rands ← many nr flt
   let ni ← nat
@@ -201,6 +236,7 @@ def runStep : P String := do
   let dirs ← many nd parseLens
   let nn ← nat
   let normals ← many nn parseLens
+  let tabTol ← flt
   let k ← nat
   let mut table : Array (List Float × LogP Float) := #[]
   for _ in [0:k] do
@@ -220,7 +256,7 @@ def runStep : P String := do
     match best with
     | some (d, v) =>
       let sc := f.foldl (fun m x => if Float.abs x > m then Float.abs x else m) 1.0
-      if d ≤ 1e-9 * sc then v else .fin nan     -- no recorded evaluation near this state
+      if d ≤ tabTol * sc then v else .fin nan     -- no recorded evaluation near this state
     | none => .fin nan
   let env : Env Float :=
     { target := target, dirLogProb := dirLogProbF,
@@ -228,7 +264,10 @@ def runStep : P String := do
         match cfgs.getD op.id none with
         | some c => hmcRun c op.scale q normals
         | none => (q, .inf, 0),
-      blockProp := fun _ own tape => (own, .inf, tape),
+      blockProp := fun op own tape =>
+        match bcfgs.getD op.id none with
+        | some c => blockRun c op own tape
+        | none => (own, .inf, tape),
       get := genGet, set := genSet, rm := genRm, asNew := genAsNew, daStep := genDaStep,
       daSet := genDaSet }
   let m : Machine Float :=
